@@ -146,7 +146,7 @@ PROPS = {
     "C05": {
         "thm": ["SameVerif.Thm.C05", "SameVerif.Thm.C05seq"],
         "suites": ["asmseq", "asmscen", "sigmask", "sigseq"],
-        "spec_filter": r"^spec\.(asm c05|asm c05w|sig c05one|sig c05seq) ",
+        "spec_filter": r"^spec\.(asm c05|asm c05w|asm c05g|sig c05one|sig c05seq) ",
         "technique": "Lean 4 invariants over all assembler operation histories (history bound, duplicate-suppression invariant) lifted to runs: two consecutive reports of the same text are at least MAX_HISTORY_DURATION apart; re-report after the window; kernel-evaluated counterexample for the known duplicate trailer; run-level ORDER theorems (Thm/C05seq): two different headers transmitted one after the other (three or two bursts each, any polls, first one released before the second arrives, gap outside the zone where exactly one burst of the first is still remembered) are reported exactly once each, in the order transmitted; the same header twice is reported once if the repeat ends inside the window and twice if it begins after it (sharp: repeat_straddling_window_reported); for EVERY sorted history the reports follow the burst log (each report is `combine` of a run of at most three consecutive bursts, and the runs' end positions are strictly increasing); kernel-checked counterexamples for what is false (no poll between the transmissions: F8; the one-burst zone: a decode error, or even a never-transmitted shorter header, can be reported in between) + scenario sweeps with subsequence and window oracles",
         "level_text": "Proved in Lean over every sorted operation list from the initial state: the history never holds more than two bursts and every entry is live and bounded; the duplicate-suppression invariant is preserved by idle and assemble; consequently two consecutive message reports with the same text are at least HIST ticks apart (dedup window, measured from the report, exactly HIST long), and a message whose combine succeeds after the previous entry expired is accepted again (re-report). The at-most-once clause is FALSE today for trailers: eom_twice_counterexample evaluates NNNN@100, NNNN@805, NNNN@1510, X@6215 to two EndOfMessage (known finding F5); eom_once_partial states exactly when a second EOM can occur. Tie and exploration as C02; the oracle checks that the reported sequence is an in-order subsequence of the transmitted one (no duplicates) and both edges of the window.",
         "level_note": "Order preservation across different messages is checked by the subsequence oracle on sweeps, not proved. One open known finding (F5).",
